@@ -1,0 +1,70 @@
+//go:build verif
+
+package routing
+
+// Hooks for the out-of-tree verification harness (build tag verif). Add-only: nothing here is
+// compiled into a normal build.  They let the harness drive the Core synchronously (the same
+// code paths the handler goroutine takes) and look at its internal state.
+
+import (
+	"github.com/dtn7/dtn7-go/pkg/bpv7"
+	"github.com/dtn7/dtn7-go/pkg/cla"
+	"github.com/dtn7/dtn7-go/pkg/storage"
+)
+
+// VerifStopCron unregisters the Core's periodic jobs so that retries and store cleaning only
+// happen when the harness asks for them.
+func (c *Core) VerifStopCron() {
+	c.cron.Unregister("pending_bundles")
+	c.cron.Unregister("clean_store")
+}
+
+// VerifReceive does what the handler does for a cla.ReceivedBundle status.
+func (c *Core) VerifReceive(b bpv7.Bundle, from bpv7.EndpointID) {
+	bp := NewBundleDescriptorFromBundle(b, c.store)
+	bp.Receiver = from
+	_ = bp.Sync()
+
+	c.receive(bp)
+}
+
+// VerifPeerAppeared does what the handler does for a cla.PeerAppeared status.
+func (c *Core) VerifPeerAppeared(sender cla.Convergence) {
+	c.routing.ReportPeerAppeared(sender)
+	c.checkPendingBundles()
+}
+
+// VerifPeerDisappeared does what the handler does for a cla.PeerDisappeared status.
+func (c *Core) VerifPeerDisappeared(sender cla.Convergence) {
+	c.routing.ReportPeerDisappeared(sender)
+}
+
+// VerifCheckPending runs the pending_bundles cron job once.
+func (c *Core) VerifCheckPending() { c.checkPendingBundles() }
+
+// VerifCleanStore runs the clean_store cron job once.
+func (c *Core) VerifCleanStore() { c.store.DeleteExpired() }
+
+// VerifStore returns the Core's store.
+func (c *Core) VerifStore() *storage.Store { return c.store }
+
+// VerifRouting returns the active routing algorithm.
+func (c *Core) VerifRouting() Algorithm { return c.routing }
+
+// VerifClaManager returns the CLA manager.
+func (c *Core) VerifClaManager() *cla.Manager { return c.claManager }
+
+// VerifIdKeeperState returns a copy of the IdKeeper's counters as (source, time, counter) triples.
+func (c *Core) VerifIdKeeperState() (src []bpv7.EndpointID, tm []bpv7.DtnTime, cnt []uint64) {
+	c.idKeeper.mutex.Lock()
+	defer c.idKeeper.mutex.Unlock()
+	for k, v := range c.idKeeper.data {
+		src = append(src, k.source)
+		tm = append(tm, k.time)
+		cnt = append(cnt, v)
+	}
+	return
+}
+
+// VerifIdKeeperClean runs the IdKeeper's cleaning once.
+func (c *Core) VerifIdKeeperClean() { c.idKeeper.clean() }
